@@ -1871,6 +1871,11 @@ class ApplyResult:
 
     def _set(self, i, obj):
         with self._mutex:
+            if self._event.is_set():
+                # already resolved: the first outcome stands (the
+                # supervisor, the time-limit scanner and the result handler
+                # can all try to resolve the same job).
+                return
             if self._on_timeout_cancel:
                 self._on_timeout_cancel(self)
             self._success, self._value = obj
